@@ -1243,7 +1243,9 @@ def compile_with_expression(compiler, expr, root, args, body):
 
     if not cbody:
         cbody = compiler._compile_branch(body)
-        cbody += asty.Assign(expr, targets=[name], value=cbody.force_expr)
+    # When `cbody` is a nested `with`, its value is that `with`'s own
+    # tempvar, which we copy into ours.
+    cbody += asty.Assign(expr, targets=[name], value=cbody.force_expr)
 
     node = asty.AsyncWith if was_async else asty.With
     ret += node(expr, body=cbody.stmts, items=items)
